@@ -333,6 +333,31 @@ pub fn spec(id: &str) -> Option<Spec> {
             worker_timeout_s: |t| t.pick(1500, 5 * 3600),
             rayon_threads: 16,
         },
+        "C03" => Spec {
+            id: "C03",
+            level: "fault_enumeration",
+            rule: "Programs: operator wrappers for every integer type (arithmetic, division, comparison, sqrt, wide_mul, \
+                   overflowing ops, inverse, pow, downcasts) and every e2e / examples snippet; 3 (thorough 10) in-range \
+                   argument vectors per function. For each honest run every CoreHint occurrence is recorded (first 2 \
+                   per static site), and for each occurrence one faulty run is executed per fault class: per output \
+                   cell flip/2 (booleans), +1, -1, field negation, +2^128, random felt (thorough: +2^64, -2^128, zero); \
+                   pointers aliased to the execution segment, the program segment, the previous segment, or a felt; \
+                   coordinated alternative decompositions for DivMod, WideMul128, LinearSplit, Uint256DivMod limb \
+                   carries, and for RandomEcPoint the negated point, an off-curve point, +-generator. The fault is \
+                   pre-written into the hint's output cells (memory is write-once). Verdict: VM error = rejected; \
+                   success with the same decoded result = benign; success with a different result = VIOLATION. \
+                   Non-trivial = distinct (run, static hint site, hint kind, fault class) actually injected.",
+            floor: |t| t.pick(3000, 50_000),
+            shards: |_| 1,
+            crash_is_violation: false,
+            assumptions: &[
+                "faults are single-occurrence: two coordinated lies at different hints are not explored",
+                "syscall, cheatcode and entry-code (external) hints are not faulted",
+                "cells already set before the hint runs are not controlled by the prover at that point (counted as not_injectable)",
+            ],
+            worker_timeout_s: |t| t.pick(1800, 6 * 3600),
+            rayon_threads: 16,
+        },
         _ => return None,
     })
 }
@@ -351,6 +376,7 @@ pub fn worker(id: &str, ctx: &mut Ctx) {
         "C10" => crate::frontend::c10_worker(ctx),
         "C02" | "C04" | "C17" => crate::execchecks::exec_worker(ctx, id),
         "C14" | "C15" => crate::sierra_mut::sierra_worker(ctx, id),
+        "C03" => crate::hintfault::c03_worker(ctx),
         "C05" => crate::metamorph::c05_worker(ctx),
         "C06" => crate::opmatrix::c06_worker(ctx),
         "C07" => crate::constcheck::c07_worker(ctx),
@@ -372,6 +398,7 @@ pub fn replay(id: &str, case: &Value) -> Result<Option<String>, String> {
         "C10" => crate::frontend::c10_replay(case),
         "C02" | "C04" | "C17" => crate::execchecks::exec_replay(id, case),
         "C14" | "C15" => crate::sierra_mut::sierra_replay(id, case),
+        "C03" => crate::hintfault::c03_replay(case),
         "C05" => crate::metamorph::c05_replay(case),
         "C06" => crate::opmatrix::c06_replay(case),
         "C07" => crate::constcheck::c07_replay(case),
